@@ -90,6 +90,11 @@ class Template:
             self.render_with_context(context, buf)
         except RecursionError as err:
             raise _stack_exhausted(self) from err
+        except LiquidSyntaxError as err:
+            # A partial that could not be parsed with what was left of the stack.
+            if isinstance(err.__cause__, RecursionError):
+                raise _stack_exhausted(self) from err
+            raise
         return buf.getvalue()
 
     async def render_async(self, *args: Any, **kwargs: Any) -> str:
@@ -106,6 +111,11 @@ class Template:
             await self.render_with_context_async(context, buf)
         except RecursionError as err:
             raise _stack_exhausted(self) from err
+        except LiquidSyntaxError as err:
+            # A partial that could not be parsed with what was left of the stack.
+            if isinstance(err.__cause__, RecursionError):
+                raise _stack_exhausted(self) from err
+            raise
         return buf.getvalue()
 
     def render_with_context(
